@@ -194,19 +194,37 @@ def parse_verus(run, text, blocks, linemap):
 def verus_unit(name, cfg, repo, build, tier):
     r = dict(unit=name, kind='verus', template=cfg['template'])
     t0 = time.time()
-    try:
-        text, blocks, linemap = X.assemble(os.path.join(VERIF, cfg['template']), repo)
-    except X.ExtractError as e:
-        r.update(status='undecided', reason='extractor: %s' % e, blocks=[], diags=[], functions=[], wall=time.time() - t0)
-        return r
+    # DEGRADE, DO NOT GIVE UP: a function whose annotations cannot be carried onto the current source (lost anchor, a rewrite
+    # that is refused, re-anchoring that yields text Verus rejects) is replaced by its CONTRACT ONLY (`external_body` stub made
+    # from the mirror's header). It is then an assumed contract: every property it serves is UNDECIDED in this run, the other
+    # functions of the unit are still verified (callers against that contract). Never a violation, never silent.
+    stub = {}
     path = os.path.join(build, name + '.rs')
-    open(path, 'w').write(text)
+    for _round in range(4):
+        try:
+            text, blocks, linemap = X.assemble(os.path.join(VERIF, cfg['template']), repo, stub=stub, tolerant=True)
+        except X.ExtractError as e:
+            r.update(status='undecided', reason='extractor: %s' % e, blocks=[], diags=[], functions=[], wall=time.time() - t0)
+            return r
+        open(path, 'w').write(text)
+        run = run_verus(path, cfg.get('rlimit', 30))
+        p = parse_verus(run, text, blocks, linemap)
+        if p['status'] != 'undecided' or 'verus rejected the unit' not in p.get('reason', ''): break
+        # which extracted functions do the rejections point into?
+        hit = {}
+        for m in re.finditer(r'([^|]*?) @([\d,]+)', p['reason'].split(': ', 1)[-1]):
+            for ln in m.group(2).split(','):
+                if not ln: continue
+                for b in blocks:
+                    if b['kind'] == 'FN' and not b.get('stubbed') and b['first_line'] <= int(ln) <= b['last_line']:
+                        hit[(b['owner'], b['name'])] = 'verus rejected the re-anchored text: ' + m.group(1).strip(' |')[:120]
+        if not hit: break
+        stub.update(hit)
     r['unit_path'] = path
     r['unit_sha256'] = hashlib.sha256(text.encode()).hexdigest()
     r['blocks'] = blocks
+    r['stubbed'] = [dict(function=b['owner'] + '::' + b['name'], tags=sorted(b.get('all_tags', b['tags'])), reason=b['stubbed']) for b in blocks if b.get('stubbed')]
     r['cheats'] = scan_cheats(text)
-    run = run_verus(path, cfg.get('rlimit', 30))
-    p = parse_verus(run, text, blocks, linemap)
     # an edited loop (e.g. `for` rewritten as `while`) has no `decreases`: Verus refuses the unit. Termination is not one of
     # the claimed properties (C09 is not applicable), so re-run with the termination check switched off for exactly those
     # functions and say so in the evidence; every other obligation of the function is still generated.
@@ -257,7 +275,7 @@ def verus_unit(name, cfg, repo, build, tier):
         failed_blocks = {d['block'] for d in vp['diags']}
         # functions declared `never_called=1` have the precondition `false` BY DESIGN (the `unreachable!()` setters of the node
         # kinds that carry no such stamp): their bodies are unreachable, which is exactly what their contract says
-        fnblocks = [i for i, b in enumerate(blocks) if b['kind'] == 'FN' and not b.get('never_called')]
+        fnblocks = [i for i, b in enumerate(blocks) if b['kind'] == 'FN' and not b.get('never_called') and not b.get('stubbed')]
         never = [blocks[i]['owner'] + '::' + blocks[i]['name'] for i, b in enumerate(blocks) if b['kind'] == 'FN' and b.get('never_called')]
         missing = [blocks[i]['owner'] + '::' + blocks[i]['name'] for i in fnblocks if i not in failed_blocks]
         r['vacuity'] = dict(functions=len(fnblocks), reachable=len(fnblocks) - len(missing), vacuous=missing, never_called_by_contract=never, wall=vrun['wall'])
@@ -461,6 +479,7 @@ def matrix(a):
         mine = [r for r in results if prop in (U.VERUS_UNITS.get(r['unit']) or U.KANI_UNITS.get(r['unit']) or U.RT_UNITS.get(r['unit']))['props']]
         v = [(r, d) for r in mine for d in r['diags'] if prop in d['tags'] and not is_known(known, prop, r['unit'], d)]
         und = [r for r in mine if r['status'] != 'ok']
+        und += [dict(r, reason='; '.join('%s not under contract in this source (%s): assumed' % (s['function'], s['reason'][:120]) for s in r.get('stubbed', []) if prop in s['tags'])) for r in mine if r['status'] == 'ok' and any(prop in s['tags'] for s in r.get('stubbed', []))]
         rc = 1 if v else (2 if und else 0)
         detail = ('%s fn=%s %s :: %s' % (v[0][0]['unit'], v[0][1]['fn'], v[0][1]['message'], ' | '.join(v[0][1]['clause'])[:160])) if v else (und[0]['reason'][:200] if und else '')
         print('MATRIX %s %d %s' % (prop, rc, detail.replace('\n', ' ')))
@@ -507,6 +526,10 @@ def main():
 
     known, fixed = load_known()
     undecided = [r for r in results if r['status'] != 'ok']
+    for r in results:
+        mine = [s for s in r.get('stubbed', []) if prop in s['tags']]
+        if r['status'] == 'ok' and mine:
+            undecided.append(dict(r, reason='; '.join('%s is not under contract in this source (%s): assumed, so %s is undecided' % (s['function'], s['reason'][:200], prop) for s in mine)))
     violations, known_hits = [], []
     for r in results:
         for d in r['diags']:
